@@ -81,10 +81,13 @@ class Pseudo2NetCDF:
             value = getattr(pfile, k)
             if not isinstance(value, MethodType):
                 try:
-                    setattr(nfile, k, value)
+                    # setncattr: setattr would silently keep names that
+                    # netCDF4 reserves for itself (e.g. scale, mask) as
+                    # python attributes instead of writing them to the file
+                    nfile.setncattr(k, value)
                 except TypeError as e:
                     if isinstance(value, bool):
-                        setattr(nfile, k, np.int8(value))
+                        nfile.setncattr(k, np.int8(value))
                     else:
                         raise e
                 except Exception as e:
